@@ -128,19 +128,37 @@ func table() []entry {
 	return []entry{
 		// scalars
 		{name: "scalar.ScMinimalVartime", valid: []int{32}, good: one, call: func(b []byte) (bool, string) { return scalar.ScMinimalVartime(b), sNone }},
-		{name: "scalar.SetBytesModOrder", valid: []int{32}, good: one, call: func(b []byte) (bool, string) { s := newSc(); _, err := s.SetBytesModOrder(b); return e(err), scState(s) }},
+		{name: "scalar.SetBytesModOrder", valid: []int{32}, good: one, call: func(b []byte) (bool, string) {
+			s := newSc()
+			_, err := s.SetBytesModOrder(b)
+			return e(err), scState(s)
+		}},
 		{name: "scalar.NewFromBytesModOrder", valid: []int{32}, good: one, call: func(b []byte) (bool, string) { _, err := scalar.NewFromBytesModOrder(b); return e(err), sNone }},
-		{name: "scalar.SetBytesModOrderWide", valid: []int{64}, good: func() []byte { return make([]byte, 64) }, call: func(b []byte) (bool, string) { s := newSc(); _, err := s.SetBytesModOrderWide(b); return e(err), scState(s) }},
+		{name: "scalar.SetBytesModOrderWide", valid: []int{64}, good: func() []byte { return make([]byte, 64) }, call: func(b []byte) (bool, string) {
+			s := newSc()
+			_, err := s.SetBytesModOrderWide(b)
+			return e(err), scState(s)
+		}},
 		{name: "scalar.NewFromBytesModOrderWide", valid: []int{64}, good: func() []byte { return make([]byte, 64) }, call: func(b []byte) (bool, string) { _, err := scalar.NewFromBytesModOrderWide(b); return e(err), sNone }},
-		{name: "scalar.SetCanonicalBytes", valid: []int{32}, good: one, call: func(b []byte) (bool, string) { s := newSc(); _, err := s.SetCanonicalBytes(b); return e(err), scState(s) }},
+		{name: "scalar.SetCanonicalBytes", valid: []int{32}, good: one, call: func(b []byte) (bool, string) {
+			s := newSc()
+			_, err := s.SetCanonicalBytes(b)
+			return e(err), scState(s)
+		}},
 		{name: "scalar.NewFromCanonicalBytes", valid: []int{32}, good: one, call: func(b []byte) (bool, string) { _, err := scalar.NewFromCanonicalBytes(b); return e(err), sNone }},
 		{name: "scalar.SetBits", valid: []int{32}, good: one, call: func(b []byte) (bool, string) { s := newSc(); _, err := s.SetBits(b); return e(err), scState(s) }},
 		{name: "scalar.NewFromBits", valid: []int{32}, good: one, call: func(b []byte) (bool, string) { _, err := scalar.NewFromBits(b); return e(err), sNone }},
 		{name: "scalar.UnmarshalBinary", valid: []int{32}, good: one, call: func(b []byte) (bool, string) { s := newSc(); err := s.UnmarshalBinary(b); return e(err), scState(s) }},
 		{name: "scalar.ToBytes(out)", valid: []int{32}, good: one, call: func(b []byte) (bool, string) { return e(newSc().ToBytes(b)), sNone }},
-		{name: "scalar.SetRandom(reader=b)", valid: nil, good: func() []byte { return make([]byte, 64) }, call: func(b []byte) (bool, string) { _, err := scalar.New().SetRandom(bytes.NewReader(b)); return e(err) || len(b) < 64, sNone }},
+		{name: "scalar.SetRandom(reader=b)", valid: nil, good: func() []byte { return make([]byte, 64) }, call: func(b []byte) (bool, string) {
+			_, err := scalar.New().SetRandom(bytes.NewReader(b))
+			return e(err) || len(b) < 64, sNone
+		}},
 		// Edwards / Montgomery / Ristretto decoders
-		{name: "CompressedEdwardsY.SetBytes", valid: []int{32}, good: c32(encB), call: func(b []byte) (bool, string) { _, err := curve.NewCompressedEdwardsY().SetBytes(b); return e(err), sNone }},
+		{name: "CompressedEdwardsY.SetBytes", valid: []int{32}, good: c32(encB), call: func(b []byte) (bool, string) {
+			_, err := curve.NewCompressedEdwardsY().SetBytes(b)
+			return e(err), sNone
+		}},
 		{name: "NewCompressedEdwardsYFromBytes", valid: []int{32}, good: c32(encB), call: func(b []byte) (bool, string) { _, err := curve.NewCompressedEdwardsYFromBytes(b); return e(err), sNone }},
 		{name: "CompressedEdwardsY.UnmarshalBinary", valid: []int{32}, good: c32(encB), needNeutral: true, call: func(b []byte) (bool, string) {
 			var c curve.CompressedEdwardsY
@@ -160,7 +178,10 @@ func table() []entry {
 			return e(err), edState(p)
 		}},
 		{name: "MontgomeryPoint.SetBytes", valid: []int{32}, good: c32(encB), call: func(b []byte) (bool, string) { _, err := curve.NewMontgomeryPoint().SetBytes(b); return e(err), sNone }},
-		{name: "CompressedRistretto.SetBytes", valid: []int{32}, good: c32(rencB), call: func(b []byte) (bool, string) { _, err := curve.NewCompressedRistretto().SetBytes(b); return e(err), sNone }},
+		{name: "CompressedRistretto.SetBytes", valid: []int{32}, good: c32(rencB), call: func(b []byte) (bool, string) {
+			_, err := curve.NewCompressedRistretto().SetBytes(b)
+			return e(err), sNone
+		}},
 		{name: "CompressedRistretto.UnmarshalBinary", valid: []int{32}, good: c32(rencB), needNeutral: true, call: func(b []byte) (bool, string) {
 			var c curve.CompressedRistretto
 			copy(c[:], rencB)
@@ -184,8 +205,14 @@ func table() []entry {
 			}
 			return e(err), st
 		}},
-		{name: "RistrettoPoint.SetUniformBytes", valid: []int{64}, good: func() []byte { return make([]byte, 64) }, call: func(b []byte) (bool, string) { _, err := curve.NewRistrettoPoint().SetUniformBytes(b); return e(err), sNone }},
-		{name: "RistrettoPoint.SetRandom(reader=b)", valid: nil, good: func() []byte { return make([]byte, 64) }, call: func(b []byte) (bool, string) { _, err := curve.NewRistrettoPoint().SetRandom(bytes.NewReader(b)); return e(err) || len(b) < 64, sNone }},
+		{name: "RistrettoPoint.SetUniformBytes", valid: []int{64}, good: func() []byte { return make([]byte, 64) }, call: func(b []byte) (bool, string) {
+			_, err := curve.NewRistrettoPoint().SetUniformBytes(b)
+			return e(err), sNone
+		}},
+		{name: "RistrettoPoint.SetRandom(reader=b)", valid: nil, good: func() []byte { return make([]byte, 64) }, call: func(b []byte) (bool, string) {
+			_, err := curve.NewRistrettoPoint().SetRandom(bytes.NewReader(b))
+			return e(err) || len(b) < 64, sNone
+		}},
 		// Ed25519 verification entry points
 		{name: "ed25519.Verify(sig=b)", valid: []int{64}, good: c32(goodSig), call: func(b []byte) (bool, string) { return ed25519.Verify(pub, msgM, b), sNone }},
 		{name: "ed25519.Verify(msg=b)", valid: nil, good: c32(msgM), big: true, call: func(b []byte) (bool, string) { return ed25519.Verify(pub, b, goodSig) || !bytes.Equal(b, msgM), sNone }},
@@ -203,8 +230,12 @@ func table() []entry {
 			x, _ := ed25519.NewExpandedPublicKey(pub)
 			return ed25519.VerifyExpanded(x, msgM, b), sNone
 		}},
-		{name: "ed25519.Batch.Add(pk=b)", valid: []int{32}, good: c32(pub), call: func(b []byte) (bool, string) { return bvRes(func(v *ed25519.BatchVerifier) { v.Add(b, msgM, goodSig) }), sNone }},
-		{name: "ed25519.Batch.Add(sig=b)", valid: []int{64}, good: c32(goodSig), call: func(b []byte) (bool, string) { return bvRes(func(v *ed25519.BatchVerifier) { v.Add(pub, msgM, b) }), sNone }},
+		{name: "ed25519.Batch.Add(pk=b)", valid: []int{32}, good: c32(pub), call: func(b []byte) (bool, string) {
+			return bvRes(func(v *ed25519.BatchVerifier) { v.Add(b, msgM, goodSig) }), sNone
+		}},
+		{name: "ed25519.Batch.Add(sig=b)", valid: []int{64}, good: c32(goodSig), call: func(b []byte) (bool, string) {
+			return bvRes(func(v *ed25519.BatchVerifier) { v.Add(pub, msgM, b) }), sNone
+		}},
 		{name: "ed25519.Batch.AddWithOptions(ph msg=b)", valid: []int{64}, good: func() []byte { h := sha512.Sum512(msgM); return h[:] }, call: func(b []byte) (bool, string) {
 			o := &ed25519.Options{Hash: crypto.SHA512}
 			s, _ := priv.Sign(nil, b, o)
@@ -223,25 +254,45 @@ func table() []entry {
 		{name: "cache.Verify(pk=b)", valid: []int{32}, good: c32(pub), call: func(b []byte) (bool, string) { return cv.Verify(b, msgM, goodSig), sNone }},
 		{name: "cache.Verify(sig=b)", valid: []int{64}, good: c32(goodSig), call: func(b []byte) (bool, string) { return cv.Verify(pub, msgM, b), sNone }},
 		{name: "cache.AddPublicKey", valid: nil, good: c32(pub), call: func(b []byte) (bool, string) { cv.AddPublicKey(b); return true, sNone }},
-		{name: "cache.Add(pk=b)", valid: []int{32}, good: c32(pub), call: func(b []byte) (bool, string) { return bvRes(func(v *ed25519.BatchVerifier) { cv.Add(v, b, msgM, goodSig) }), sNone }},
+		{name: "cache.Add(pk=b)", valid: []int{32}, good: c32(pub), call: func(b []byte) (bool, string) {
+			return bvRes(func(v *ed25519.BatchVerifier) { cv.Add(v, b, msgM, goodSig) }), sNone
+		}},
 		// signing-side option validation (errors, never signatures)
-		{name: "ed25519.PrivateKey(b).Sign", valid: []int{64}, good: c32(priv), call: func(b []byte) (bool, string) { s, err := ed25519.PrivateKey(b).Sign(nil, msgM, &ed25519.Options{}); return e(err) && s != nil, sNone }},
-		{name: "ed25519.Sign(ph msg=b)", valid: []int{64}, good: func() []byte { return make([]byte, 64) }, call: func(b []byte) (bool, string) { s, err := priv.Sign(nil, b, &ed25519.Options{Hash: crypto.SHA512}); return e(err) && s != nil, sNone }},
-		{name: "ed25519.Sign(ctx=b)", valid: nil, good: c32(msgM), call: func(b []byte) (bool, string) { s, err := priv.Sign(nil, msgM, &ed25519.Options{Context: string(b)}); return (e(err) && s != nil) || len(b) > 255, sNone }},
+		{name: "ed25519.PrivateKey(b).Sign", valid: []int{64}, good: c32(priv), call: func(b []byte) (bool, string) {
+			s, err := ed25519.PrivateKey(b).Sign(nil, msgM, &ed25519.Options{})
+			return e(err) && s != nil, sNone
+		}},
+		{name: "ed25519.Sign(ph msg=b)", valid: []int{64}, good: func() []byte { return make([]byte, 64) }, call: func(b []byte) (bool, string) {
+			s, err := priv.Sign(nil, b, &ed25519.Options{Hash: crypto.SHA512})
+			return e(err) && s != nil, sNone
+		}},
+		{name: "ed25519.Sign(ctx=b)", valid: nil, good: c32(msgM), call: func(b []byte) (bool, string) {
+			s, err := priv.Sign(nil, msgM, &ed25519.Options{Context: string(b)})
+			return (e(err) && s != nil) || len(b) > 255, sNone
+		}},
 		{name: "ed25519.NewKeyFromSeed", valid: []int{32}, good: c32(seed0), docPanic: not32, call: func(b []byte) (bool, string) { ed25519.NewKeyFromSeed(b); return true, sNone }},
-		{name: "ed25519.GenerateKey(reader=b)", valid: nil, good: c32(seed0), call: func(b []byte) (bool, string) { _, _, err := ed25519.GenerateKey(bytes.NewReader(b)); return e(err) || len(b) < 32, sNone }},
+		{name: "ed25519.GenerateKey(reader=b)", valid: nil, good: c32(seed0), call: func(b []byte) (bool, string) {
+			_, _, err := ed25519.GenerateKey(bytes.NewReader(b))
+			return e(err) || len(b) < 32, sNone
+		}},
 		// ECVRF
 		{name: "ecvrf.Verify(pk=b)", valid: []int{32}, good: c32(pub), call: func(b []byte) (bool, string) { ok, _ := ecvrf.Verify(b, proof, []byte("a")); return ok, sNone }},
 		{name: "ecvrf.Verify(pi=b)", valid: []int{80}, good: c32(proof), call: func(b []byte) (bool, string) { ok, _ := ecvrf.Verify(pub, b, []byte("a")); return ok, sNone }},
 		{name: "ecvrf.Verify_v10(pi=b)", valid: []int{80}, good: func() []byte { return ecvrf.Prove_v10(priv, []byte("a")) }, call: func(b []byte) (bool, string) { ok, _ := ecvrf.Verify_v10(pub, b, []byte("a")); return ok, sNone }},
-		{name: "ecvrf.Verify(alpha=b)", valid: nil, good: func() []byte { return []byte("a") }, big: true, call: func(b []byte) (bool, string) { ok, _ := ecvrf.Verify(pub, proof, b); return ok || !bytes.Equal(b, []byte("a")), sNone }},
+		{name: "ecvrf.Verify(alpha=b)", valid: nil, good: func() []byte { return []byte("a") }, big: true, call: func(b []byte) (bool, string) {
+			ok, _ := ecvrf.Verify(pub, proof, b)
+			return ok || !bytes.Equal(b, []byte("a")), sNone
+		}},
 		{name: "ecvrf.ProofToHash", valid: []int{80}, good: c32(proof), call: func(b []byte) (bool, string) { _, err := ecvrf.ProofToHash(b); return e(err), sNone }},
 		{name: "ecvrf.Prove(alpha=b)", valid: nil, good: func() []byte { return []byte("a") }, big: true, call: func(b []byte) (bool, string) { ecvrf.Prove(priv, b); return true, sNone }},
 		// X25519
 		{name: "x25519.X25519(scalar=b)", valid: []int{32}, good: one, call: func(b []byte) (bool, string) { _, err := x25519.X25519(b, x25519.Basepoint); return e(err), sNone }},
 		{name: "x25519.X25519(point=b)", valid: []int{32}, good: func() []byte { b := make([]byte, 32); b[0] = 9; return b }, call: func(b []byte) (bool, string) { _, err := x25519.X25519(one(), b); return e(err), sNone }},
 		{name: "x25519.EdPublicKeyToX25519", valid: []int{32}, good: c32(pub), call: func(b []byte) (bool, string) { _, ok := x25519.EdPublicKeyToX25519(b); return ok, sNone }},
-		{name: "x25519.GenerateKey(reader=b)", valid: nil, good: c32(seed0), call: func(b []byte) (bool, string) { _, _, err := x25519.GenerateKey(bytes.NewReader(b)); return e(err) || len(b) < 32, sNone }},
+		{name: "x25519.GenerateKey(reader=b)", valid: nil, good: c32(seed0), call: func(b []byte) (bool, string) {
+			_, _, err := x25519.GenerateKey(bytes.NewReader(b))
+			return e(err) || len(b) < 32, sNone
+		}},
 		// sr25519
 		{name: "sr25519.NewMiniSecretKeyFromBytes", valid: []int{32}, good: c32(seed0), call: func(b []byte) (bool, string) { _, err := sr25519.NewMiniSecretKeyFromBytes(b); return e(err), sNone }},
 		{name: "sr25519.SecretKey.UnmarshalBinary", valid: []int{64}, good: c32(srSk), call: func(b []byte) (bool, string) {
@@ -324,12 +375,27 @@ func table() []entry {
 			sig, err := kp.Sign(nil, st)
 			return err == nil && kp.PublicKey().Verify(st, sig), sNone
 		}},
-		{name: "sr25519.GenerateKeyPair(reader=b)", valid: nil, good: func() []byte { return make([]byte, 96) }, call: func(b []byte) (bool, string) { _, err := sr25519.GenerateKeyPair(bytes.NewReader(b)); return e(err) || len(b) < 96, sNone }},
+		{name: "sr25519.GenerateKeyPair(reader=b)", valid: nil, good: func() []byte { return make([]byte, 96) }, call: func(b []byte) (bool, string) {
+			_, err := sr25519.GenerateKeyPair(bytes.NewReader(b))
+			return e(err) || len(b) < 96, sNone
+		}},
 		// expanders, suites, transcripts
-		{name: "h2c.ExpandMessageXMD(out=len b,dst=b,msg=b)", valid: nil, good: c32(msgM), big: true, call: func(b []byte) (bool, string) { err := h2c.ExpandMessageXMD(b, crypto.SHA512, b, b); return e(err) || len(b) == 0 || len(b) > 255*64, sNone }},
-		{name: "h2c.ExpandMessageXOF(out=len b,dst=b,msg=b)", valid: nil, good: c32(msgM), big: true, call: func(b []byte) (bool, string) { err := h2c.ExpandMessageXOF(b, sha3.NewShake128(), b, b); return e(err) || len(b) == 0 || len(b) > 65535, sNone }},
-		{name: "h2c.Edwards25519_XMD_SHA512_ELL2_RO(dst=b,msg=b)", valid: nil, good: c32(msgM), big: true, call: func(b []byte) (bool, string) { _, err := h2c.Edwards25519_XMD_SHA512_ELL2_RO(b, b); return e(err), sNone }},
-		{name: "h2c.Ristretto255_XOF_R255MAP_RO(dst=b,msg=b)", valid: nil, good: c32(msgM), big: true, call: func(b []byte) (bool, string) { _, err := h2c.Ristretto255_XOF_R255MAP_RO(sha3.NewShake256(), b, b); return e(err), sNone }},
+		{name: "h2c.ExpandMessageXMD(out=len b,dst=b,msg=b)", valid: nil, good: c32(msgM), big: true, call: func(b []byte) (bool, string) {
+			err := h2c.ExpandMessageXMD(b, crypto.SHA512, b, b)
+			return e(err) || len(b) == 0 || len(b) > 255*64, sNone
+		}},
+		{name: "h2c.ExpandMessageXOF(out=len b,dst=b,msg=b)", valid: nil, good: c32(msgM), big: true, call: func(b []byte) (bool, string) {
+			err := h2c.ExpandMessageXOF(b, sha3.NewShake128(), b, b)
+			return e(err) || len(b) == 0 || len(b) > 65535, sNone
+		}},
+		{name: "h2c.Edwards25519_XMD_SHA512_ELL2_RO(dst=b,msg=b)", valid: nil, good: c32(msgM), big: true, call: func(b []byte) (bool, string) {
+			_, err := h2c.Edwards25519_XMD_SHA512_ELL2_RO(b, b)
+			return e(err), sNone
+		}},
+		{name: "h2c.Ristretto255_XOF_R255MAP_RO(dst=b,msg=b)", valid: nil, good: c32(msgM), big: true, call: func(b []byte) (bool, string) {
+			_, err := h2c.Ristretto255_XOF_R255MAP_RO(sha3.NewShake256(), b, b)
+			return e(err), sNone
+		}},
 		{name: "merlin ops(label=b,msg=b,size=len b)", valid: nil, good: c32(msgM), big: true, call: func(b []byte) (bool, string) {
 			t := merlin.NewTranscript(string(b))
 			t.AppendMessage(string(b), b)
